@@ -114,7 +114,8 @@ func (e *exerciser) guard(opName string, f func() error) {
 // someFixed rotates through the fixed hostile keys so that every case uses a
 // few and the whole list is covered across cases.
 func (e *exerciser) someFixed(n int) []interface{} {
-	var out []interface{}
+	// the key that sorts after every entry is always in: searches with it follow the right-most pointers
+	out := []interface{}{fixedKeys[10]}
 	for i := 0; i < n; i++ {
 		out = append(out, fixedKeys[e.rot%len(fixedKeys)])
 		e.rot++
